@@ -36,6 +36,14 @@ def base_strings(tier: str, seed: int) -> List[bytes]:
                 fs.append(bytes(rnd.randrange(256) for _ in range(5)))
         return fs
 
+    # operand extremes (all ones, top of the address space with and without the ignored upper bits, all zeros) for every opcode
+    extremes = [bytes([0xFF] * 6), bytes([0xFE, 0xFF, 0x0F, 0xFF, 0xFF, 0xFF]), bytes([0xFF, 0xFF, 0x0F, 0x00, 0x00, 0x00]), bytes(6),
+                bytes([0xFF, 0xFF, 0xFF, 0x0F, 0xFF, 0xFF]), bytes([0x04, 0xFF, 0xFF, 0xFF, 0xFF, 0xFF]), bytes([0x00, 0xFF, 0xFF, 0xFF, 0x00, 0x00]),
+                bytes([0x00, 0x00, 0xF0, 0x00, 0x00, 0xF0]), bytes([0x84, 0xFF, 0xFF, 0xFF, 0xFF, 0x0F])]
+    for pre in (None, 0x32, 0x25):
+        for op in range(256):
+            for x in extremes:
+                out.append(((bytes([op]) if pre is None else bytes([pre, op])) + x)[:7])
     pres = [None] + PRE_BYTES
     if tier == "quick":
         for op in range(256):
